@@ -231,8 +231,9 @@ class Ctx:
                     self.known_hit.append((k.get("key", k.get("key_regex")), k.get("what", detail)))
                 return False
         if len(self.violations) < 400:
-            os.makedirs(os.path.join(VERIF, "replays"), exist_ok=True)
-            rp = os.path.join(VERIF, "replays", f"{self.pid}_{len(self.violations)}.json")
+            rdir = os.environ.get("VERIF_REPLAY_DIR", os.path.join(VERIF, "replays"))
+            os.makedirs(rdir, exist_ok=True)
+            rp = os.path.join(rdir, f"{self.pid}_{len(self.violations)}.json")
             with open(rp, "w") as fh:
                 json.dump({"property": self.pid, "key": key, "detail": detail, "replay": replay_obj,
                            "tier": self.tier, "seed": self.seed}, fh, indent=1, default=str)
@@ -260,8 +261,9 @@ class Ctx:
         ev = {"property_id": self.pid, "tier": self.tier, "seed": int(self.seed), "level": self.level,
               "coverage": cov, "assumptions": self.assumptions, "wall_s": round(wall, 2),
               "violations": len(self.violations)}
-        os.makedirs(os.path.join(VERIF, "evidence"), exist_ok=True)
-        with open(os.path.join(VERIF, "evidence", f"{self.pid}.json"), "w") as fh:
+        evdir = os.environ.get("VERIF_EVIDENCE_DIR", os.path.join(VERIF, "evidence"))   # (seeded-change runs write elsewhere)
+        os.makedirs(evdir, exist_ok=True)
+        with open(os.path.join(evdir, f"{self.pid}.json"), "w") as fh:
             json.dump(ev, fh, indent=1, default=str)
         for k, what in self.known_hit:
             print(f"KNOWN-FINDING: property={self.pid} {k}: {what}")
